@@ -2,13 +2,14 @@
 package main
 
 import (
-	"verif/internal/lab"
 	"fmt"
 	"os"
 	"os/signal"
+	"runtime/debug"
 	"sort"
 	"strconv"
 	"syscall"
+	"verif/internal/lab"
 	"verif/internal/values"
 
 	"verif/internal/checks"
@@ -162,6 +163,9 @@ func run(scratch string) int {
 			defer func() {
 				if p := recover(); p != nil {
 					r.Harness(fmt.Sprintf("driver panic: %v", p))
+					if os.Getenv("VERIF_DEBUG_PANIC") != "" {
+						fmt.Fprintln(os.Stderr, string(debug.Stack()))
+					}
 					if os.Getenv("VERIF_DEBUG") != "" {
 						panic(p)
 					}
